@@ -170,8 +170,16 @@ static int drawN(Rng& r, bool thorough)
 }
 
 // ------------------------------------------------------------------------------------------------
+// Root-cause keys of the open findings (reports/C18_open_findings.json): one key per cause.
+// ------------------------------------------------------------------------------------------------
+static const char* K_NONMONO  = "C18:hermite:practical-interval-not-monotone";                 // AnamHermite::_defineBounds
+static const char* K_NONPOS   = "C18:empirical:gaussian-dilution:non-positive-data-ignored";   // AnamEmpirical::_fitWithDilutionGaussian
+static const char* K_TABLE    = "C18:empirical:gaussian-dilution:table-not-monotone";          // law_invcdf_gaussian(p < 1.1e-16) = -0
+
+// ------------------------------------------------------------------------------------------------
 // family: Hermite anamorphosis
 // ------------------------------------------------------------------------------------------------
+static void famHermiteBody(Rng& r, Ctx& c, const Sample& s, int nbpoly, bool bound, bool viaDb, bool useSel, bool useWt, bool byLoc, const char* scriptedName);
 static void famHermite(Rng& r, Ctx& c)
 {
   int n       = drawN(r, c.thorough());
@@ -182,6 +190,13 @@ static void famHermite(Rng& r, Ctx& c)
   bool useSel = viaDb && r.coin(0.5);
   bool useWt  = !viaDb && r.coin(0.25);
   bool byLoc  = viaDb && r.coin(0.3);
+  famHermiteBody(r, c, s, nbpoly, bound, viaDb, useSel, useWt, byLoc, nullptr);
+}
+static void famHermiteBody(Rng& r, Ctx& c, const Sample& s, int nbpoly, bool bound, bool viaDb, bool useSel, bool useWt, bool byLoc, const char* scriptedName)
+{
+  int n = (int)s.z.size();
+  if (scriptedName) c.setSig(std::string("scripted:") + scriptedName);
+  else
   c.setSig(fmt("hermite:dist=%s:ties=%d:test=%d:nb=%s:bound=%d:db=%d:sel=%d:wt=%d:byloc=%d", DISTN[s.dist], s.ties, s.hasTest,
                nbpoly <= 10 ? "3-10" : (nbpoly <= 30 ? "11-30" : "31-100"), bound, viaDb, useSel, useWt, byLoc));
   c.putn("n", n);
@@ -279,7 +294,7 @@ static void famHermite(Rng& r, Ctx& c)
       prev = v;
     }
     nonmono = !mono;
-    if (nin >= 2) c.truth("hermite-monotone", "C18:hermite:not-monotone-inside-practical-interval:" + bk, mono, det);
+    if (nin >= 2) c.truth("hermite-monotone", K_NONMONO, mono, det + " (" + bk + ")");
     else c.skip("hermite-monotone:interval-too-short");
   }
 
@@ -298,7 +313,7 @@ static void famHermite(Rng& r, Ctx& c)
   VectorDouble yv  = anam->rawToGaussianVector(zv);
   VectorDouble zb  = anam->gaussianToRawVector(yv);
   double zrange    = std::max(std::fabs(vzmax - vzmin), 1e-300);
-  std::string nm   = nonmono ? ":reported-interval-not-monotone" : "";
+  // when the reported interval is not monotone the inverse cannot be one: same root cause, same key
   double marg      = 1e-6 * zrange;
   for (size_t i = 0; i < ztest.size(); i++)
   {
@@ -317,7 +332,7 @@ static void famHermite(Rng& r, Ctx& c)
       refPhi(psi, y, val, der, mag);
       double slope = std::fabs((double)der);
       double tol   = 4 * std::max(dzmax, slope * dymax) + 64 * nbpoly * EPS * (double)mag;
-      c.close("hermite-z2y2z", "C18:hermite:z2y2z:practical-interval:" + bk + nm, zz, z, tol, fmt("z=%.17g y=%.17g slope=%g dzmax=%g", z, y, slope, dzmax));
+      c.close("hermite-z2y2z", nonmono ? std::string(K_NONMONO) : "C18:hermite:z2y2z:practical-interval:" + bk, zz, z, tol, fmt("z=%.17g y=%.17g slope=%g dzmax=%g", z, y, slope, dzmax));
     }
     else if (inAbsolute && !nonmono && (z < pzmin - marg || z > pzmax + marg))
     {
@@ -349,7 +364,7 @@ static void famHermite(Rng& r, Ctx& c)
     double z  = anam->transformToRawValue(y);
     if (bound && (z <= azmin || z >= azmax)) { c.skip("hermite-y2z2y:clipped"); continue; }
     double yy = anam->rawToTransformValue(z);
-    c.close("hermite-y2z2y", "C18:hermite:y2z2y:practical-interval:" + bk + nm, yy, y, toly, fmt("y=%.17g z=%.17g slope=%g", y, z, slope));
+    c.close("hermite-y2z2y", nonmono ? std::string(K_NONMONO) : "C18:hermite:y2z2y:practical-interval:" + bk, yy, y, toly, fmt("y=%.17g z=%.17g slope=%g", y, z, slope));
   }
 
   // ---- Db forms agree with the vector forms and round-trip
@@ -391,6 +406,7 @@ static void famHermite(Rng& r, Ctx& c)
 // ------------------------------------------------------------------------------------------------
 // family: empirical anamorphosis
 // ------------------------------------------------------------------------------------------------
+static void famEmpiricalBody(Rng& r, Ctx& c, int mode, const Sample& s, int ndisc, double sigma2e, const char* scriptedName);
 static void famEmpirical(Rng& r, Ctx& c)
 {
   int mode  = r.irange(0, 2); // 0 normal score, 1 gaussian dilution, 2 lognormal dilution
@@ -398,7 +414,14 @@ static void famEmpirical(Rng& r, Ctx& c)
   Sample s  = genSample(r, n, mode == 2);
   int ndisc = r.irange(10, 200);
   double sigma2e = r.coin(0.5) ? TEST : -1;
+  famEmpiricalBody(r, c, mode, s, ndisc, sigma2e, nullptr);
+}
+static void famEmpiricalBody(Rng& r, Ctx& c, int mode, const Sample& s, int ndisc, double sigma2e, const char* scriptedName)
+{
+  int n = (int)s.z.size();
   static const char* MN[] = {"normalscore", "gaussian-dilution", "lognormal-dilution"};
+  if (scriptedName) c.setSig(std::string("scripted:") + scriptedName);
+  else
   c.setSig(fmt("empirical:mode=%s:dist=%s:ties=%d:test=%d:sigma=%s", MN[mode], DISTN[s.dist], s.ties, s.hasTest, FFFF(sigma2e) ? "default" : "user"));
   c.putn("n", n);
   c.putn("ndisc", ndisc);
@@ -420,7 +443,9 @@ static void famEmpirical(Rng& r, Ctx& c)
   catch (const std::exception& e)
   {
     // fitFromArray documents a return code; an exception is a failure of the fit protocol
-    c.check("empirical-fit", std::string("C18:empirical:fit-throws:") + MN[mode], false, 1, 0, std::string(e.what()).substr(0, 160));
+    bool nonpos = false;
+    for (int i = 0; i < n; i++) if (!FFFF(s.z[i]) && s.z[i] <= 0) nonpos = true;
+    c.check("empirical-fit", (mode == 1 && nonpos) ? std::string(K_NONPOS) : std::string("C18:empirical:fit-throws:") + MN[mode], false, 1, 0, std::string(e.what()).substr(0, 160));
     return;
   }
   if (err != 0)
@@ -442,7 +467,7 @@ static void famEmpirical(Rng& r, Ctx& c)
   if (!fin) return;
   bool tablesSorted = true;
   for (int i = 1; i < nd; i++) tablesSorted &= Z[i] >= Z[i - 1] && Y[i] >= Y[i - 1];
-  std::string ts = tablesSorted ? "" : ":table-not-monotone";
+  bool knownTable = !tablesSorted && mode == 1;
   // z -> y -> z on segments where both tables increase strictly (elsewhere the piecewise-linear map is not injective and
   // the library clamps Y to [-10,10]: outside the claim)
   VectorDouble zt, yt;
@@ -474,8 +499,8 @@ static void famEmpirical(Rng& r, Ctx& c)
     double zmag = std::max(std::fabs(Z[i]), std::fabs(Z[i + 1])), ymag = std::max(std::fabs(Y[i]), std::fabs(Y[i + 1]));
     double tolz = 256 * EPS * (zmag + ymag * sz) + 1e-300;
     double toly = 256 * EPS * (ymag + zmag * sy) + 1e-300;
-    c.close("empirical-z2y2z", std::string("C18:empirical:z2y2z:") + MN[mode] + ts, z1[k], zt[k], tolz, fmt("z=%.17g y=%.17g segment %d", zt[k], y1[k], i));
-    c.close("empirical-y2z2y", std::string("C18:empirical:y2z2y:") + MN[mode] + ts, y2[k], yt[k], toly, fmt("y=%.17g z=%.17g segment %d", yt[k], z2[k], i));
+    c.close("empirical-z2y2z", knownTable ? std::string(K_TABLE) : std::string("C18:empirical:z2y2z:") + MN[mode], z1[k], zt[k], tolz, fmt("z=%.17g y=%.17g segment %d", zt[k], y1[k], i));
+    c.close("empirical-y2z2y", knownTable ? std::string(K_TABLE) : std::string("C18:empirical:y2z2y:") + MN[mode], y2[k], yt[k], toly, fmt("y=%.17g z=%.17g segment %d", yt[k], z2[k], i));
   }
   // monotone: the transform of increasing raw values is non-decreasing
   {
@@ -486,7 +511,7 @@ static void famEmpirical(Rng& r, Ctx& c)
     bool mono = true;
     for (int k = 1; k < 40; k++) mono &= ys[k] >= ys[k - 1] - 8 * EPS * std::max(1., std::fabs(ys[k])); // interpolation round-off on plateaus
     if (tablesSorted) c.truth("empirical-monotone", std::string("C18:empirical:not-monotone:") + MN[mode], mono, "");
-    c.truth("empirical-table-sorted", std::string("C18:empirical:tables-not-sorted:") + MN[mode], tablesSorted, "");
+    c.truth("empirical-table-sorted", mode == 1 ? std::string(K_TABLE) : std::string("C18:empirical:tables-not-sorted:") + MN[mode], tablesSorted, "");
   }
 }
 
@@ -874,9 +899,71 @@ static void famRotation(Rng& r, Ctx& c)
 }
 
 // ------------------------------------------------------------------------------------------------
+// Scripted scenarios (case indices 0..NSCRIPT-1 of every run, independent of VERIF_SEED): one fixed data set per open
+// finding, checked by the same code as the random cases, so that every open key is reached in every run.
+// ------------------------------------------------------------------------------------------------
+static const int NSCRIPT = 3;
+static bool reportsNonMonotoneInterval(const VectorDouble& z, int nb)
+{
+  std::unique_ptr<AnamHermite> a(AnamHermite::create(nb, true));
+  if (a->fitFromArray(z) != 0) return false;
+  double lo = std::max(a->getPymin(), a->getAymin()), hi = std::min(a->getPymax(), a->getAymax());
+  double y = 0, prev = NAN;
+  for (int k = 0; k < 100; k++) y -= 0.1;
+  for (int k = 0; k <= 200; k++)
+  {
+    if (y >= lo && y <= hi)
+    {
+      double v = a->transformToRawValue(y);
+      if (!std::isnan(prev) && v < prev) return true;
+      prev = v;
+    }
+    y += 0.1;
+  }
+  return false;
+}
+static void scripted(int idx, Ctx& c)
+{
+  Rng rs(20261002ULL, "C18-scripted", (uint64_t)idx);
+  if (idx == 0)
+  {
+    // uniform samples, 6 polynomials: the expansion overshoots the data maximum at a grid node and decreases afterwards;
+    // the first such sample of a fixed stream is used (if none shows the defect any more, the last one is checked anyway)
+    Sample s;
+    for (int k = 0; k < 400; k++)
+    {
+      Rng rk(20261002ULL, "C18-scripted-uniform", (uint64_t)k);
+      s = Sample();
+      s.dist = D_UNIF;
+      s.z.resize(200);
+      for (int i = 0; i < 200; i++) s.z[i] = rk.uni(0.5, 4.);
+      s.ndef = 200; s.positive = true;
+      if (reportsNonMonotoneInterval(s.z, 6)) { c.putn("stream-index", k); break; }
+    }
+    famHermiteBody(rs, c, s, 6, true, false, false, false, false, "hermite-practical-interval-not-monotone");
+    return;
+  }
+  Sample s;
+  s.dist = D_BIMODAL;
+  if (idx == 1)
+  {
+    s.z.resize(100);
+    for (int i = 0; i < 100; i++) s.z[i] = (i < 40) ? -2 - 0.01 * i : 3 + 0.02 * i;
+    s.ndef = 100;
+    famEmpiricalBody(rs, c, 1, s, 30, TEST, "empirical-gaussian-dilution-table");
+    return;
+  }
+  s.z.resize(20);
+  for (int i = 0; i < 20; i++) s.z[i] = -100 + i;
+  s.ndef = 20;
+  famEmpiricalBody(rs, c, 1, s, 30, TEST, "empirical-gaussian-dilution-no-positive-datum");
+}
+
+// ------------------------------------------------------------------------------------------------
 static void run_case(Rng& r, Ctx& c)
 {
   defineDefaultSpace(ESpaceType::RN, 2);
+  if (c.icase < NSCRIPT) { scripted((int)c.icase, c); return; }
   double p = r.u01();
   if (p < 0.30) famHermite(r, c);
   else if (p < 0.45) famEmpirical(r, c);
